@@ -19,17 +19,20 @@ def _setup(cplx):
     Sp = tm.sym("sp", k, k, ("diag", "real", "herm", "nonneg", "pos", "inv"))
     R = tm.sym("R", k, k, pr + ("unit", "inv"))
     A = tm.sym("A", k, k, pr + ("inv",))
+    W = tm.sym("W", n, k, pr)
     N = Normalizer(facts)
     N.add_hyp(tm.mul(tm.H(U), U), tm.I(k))
     N.add_hyp(tm.mul(tm.H(V), V), tm.I(k))
     N.add_hyp(tm.mul(X, V), tm.mul(U, S))
     N.add_hyp(tm.mul(tm.H(X), U), tm.mul(V, S))
-    return N, dict(n=n, p=p, k=k, X=X, U=U, V=V, S=S, Sp=Sp, R=R, A=A)
+    return N, dict(n=n, p=p, k=k, X=X, U=U, V=V, S=S, Sp=Sp, R=R, A=A, W=W)
 
 
 def cases(e):
     n, k = e["n"], e["k"]
-    X, U, V, S, Sp, R, A = e["X"], e["U"], e["V"], e["S"], e["Sp"], e["R"], e["A"]
+    X, U, V, S, Sp, R, A, W = e["X"], e["U"], e["V"], e["S"], e["Sp"], e["R"], e["A"], e["W"]
+    G = tm.mul(tm.H(W), W)
+    wd = tm.sym("w", n, n, ("diag", "real", "herm", "nonneg", "pos", "inv"))
     inv = 1 / tm.rv(n.z - 1)
     true = [
         (tm.mul(tm.H(tm.mul(U, S)), tm.mul(U, S)), tm.dpow(S, 2)),
@@ -40,6 +43,10 @@ def cases(e):
         (tm.mul(tm.mul(Sp, tm.inv(Sp)), Sp), Sp),
         (tm.tr(tm.mul(tm.mul(tm.H(R), tm.dpow(S, 2)), R)), tm.tr(tm.dpow(S, 2))),
         (tm.mul(tm.mul(U, S), tm.inv(S)), U),                      # under the (assumed) invertibility the division expresses
+        (tm.mul(tm.inv(tm.mul(tm.mul(R, G), tm.H(R))), tm.mul(R, G)), R),       # inv(R G R^H) R G = R
+        (tm.mul(tm.H(tm.inv(G)), G), tm.I(k)),                                   # the inverse of a Hermitian matrix is Hermitian
+        (tm.mul(tm.mul(tm.mul(A, G), tm.inv(tm.mul(A, G))), S), S),              # P inv(P) = I with an invertible atom stripped
+        (tm.mul(tm.H(tm.inv(tm.mul(G, A))), tm.H(tm.mul(G, A))), tm.I(k)),       # inv(P)^H P^H = I
     ]
     false = [
         (tm.smul(inv, tm.dpow(S, 2)), tm.smul(1 / tm.rv(n.z), tm.dpow(S, 2))),          # N for N-1
@@ -50,6 +57,10 @@ def cases(e):
         (tm.mul(U, tm.H(U)), tm.I(n)),                                                # only U^H U = I is known
         (tm.dpow(Sp, 0.5), Sp),
         (tm.mul(S, R), tm.mul(R, S)),                                                 # diagonal does not commute with a full matrix
+        (tm.mul(A, tm.H(tm.inv(A))), tm.I(k)),                                        # A inv(A)^H = I only for unitary A
+        (tm.mul(tm.inv(G), tm.mul(tm.mul(tm.H(W), wd), W)), tm.I(k)),                                                    # a weight in the middle
+        (tm.mul(tm.inv(tm.mul(tm.mul(tm.H(W), tm.dpow(wd, 2)), W)), tm.mul(tm.mul(tm.H(W), wd), W)), tm.I(k)),            # exponent mismatch
+        (tm.mul(tm.H(tm.inv(tm.mul(G, A))), tm.mul(G, A)), tm.I(k)),                                                       # inv(P)^H P
     ]
     return true, false
 
@@ -96,7 +107,7 @@ def run():
         Un, sn, Vh = np.linalg.svd(Xn, full_matrices=False)
         q, _ = np.linalg.qr(rng.standard_normal((kk, kk)) + (1j * rng.standard_normal((kk, kk)) if cplx else 0))
         val = {"X": Xn, "U": Un[:, :kk], "V": Vh[:kk].conj().T, "s": np.diag(sn[:kk]), "sp": np.diag(sn[:kk] + 0.5), "R": q,
-               "A": rng.standard_normal((kk, kk)) + 2 * np.eye(kk), "#stn": nn, "#stp": pp, "#stk": kk}
+               "A": rng.standard_normal((kk, kk)) + 2 * np.eye(kk), "w": np.diag(rng.uniform(0.5, 2.0, nn)), "W": rng.standard_normal((nn, kk)) + (1j * rng.standard_normal((nn, kk)) if cplx else 0), "#stn": nn, "#stp": pp, "#stk": kk}
         for i, (l, r) in enumerate(true):
             ok, resid = N.equal(l, r)
             if not ok:
